@@ -149,6 +149,8 @@ def c02_steps(tier, seed):
         native("reg-owner-none", ["w_reg", "--mode", "owner", "--phase", "none", "--rounds", rounds, "--seed", seed]),
         native("reg-owner-delay", ["w_reg", "--mode", "owner", "--phase", "delay", "--rounds", rounds, "--seed", seed + 100]),
         native("reg-owner-raise", ["w_reg", "--mode", "owner", "--phase", "raise", "--rounds", rounds, "--seed", seed + 200]),
+        native("reg-shared-delay", ["w_reg", "--mode", "sharedlog", "--phase", "delay", "--rounds", rounds, "--seed", seed + 300]),
+        native("reg-shared-raise", ["w_reg", "--mode", "sharedlog", "--phase", "raise", "--rounds", rounds, "--seed", seed + 400]),
         miri("registry-miri", "m_registry", ["--shape", seed + 3], 16 if q else 384, timeout=400 if q else 3600),
     ]
 
@@ -160,8 +162,11 @@ PLANS["C02"] = {
         "cases = dispatch brackets (DISPATCH_ENTER..EXIT of one delivery) whose list of actions run is compared with the "
         "registry states that can have been current during the bracket (single owner per signal, so the state sequence is "
         "known at the client boundary); non-trivial = a bracket overlapping an owner operation (>= 2 candidate states); "
-        "distinct = distinct (signal, #candidates, which candidate was run, run-list length, nested?, window size) tuples",
-        ["exactness of 'some instant' is limited to single-owner signals; signals share one snapshot, so owners contend"]),
+        "distinct = distinct (signal, #candidates, which candidate was run, run-list length, nested?, window size) tuples; "
+        "second mode: 3 mutators share 2 signals (every action has one owner thread): per bracket nothing twice, nothing of another "
+        "signal, must-run (registration returned before ENTER, removal not called before EXIT), must-not-run (removal returned before "
+        "ENTER / registration called after EXIT) and real-time registration order of the actions that ran",
+        ["exactness of 'some instant' is limited to single-owner signals; shared signals get the must-run / must-not-run / order rules"]),
     "floor": floor_counters(c02_nontrivial_brackets=50, c02_nested_brackets=1),
 }
 
